@@ -10,6 +10,7 @@
  "unwind": 9,
  "unwind_reason": "both loops of reserve_sparse_super2_last_group are cut by the in-place loop contracts VERIF_INV_RESERVE_SS2_GROUPS / _BLOCKS (invariant + decreases); the bound only serves instrumentation loops",
  "cbmc_flags": ["--object-bits", "12"],
+ "backend": "cadical",
  "functions": ["resize/resize2fs.c:reserve_sparse_super2_last_group"],
  "assumes": ["big translation unit: no contract is enforced; the real static function is called directly, the statement is made by harness CHECKs over the ghost monitor of rsz_common.h (bitmaps observed at ONE arbitrary ghost block, descriptors at ONE arbitrary ghost group; everything else answers arbitrarily)",
              "ext2fs_super_and_bgd_loc2 is a stub that answers what the format prescribes for the asked group (specs/spec_geom.h: super block iff spec_bg_has_super, old-style descriptors right behind it unless the group is in the meta_bg region), with the group's first block an arbitrary input (no symbolic product); that the real function satisfies this is geometry/super_bgd_loc*",
@@ -69,22 +70,20 @@ static struct {
 	__CPROVER_loop_invariant(g <= fs->group_desc_count && sb == S.sb && num == S.n && S.ipb == fs->inode_blocks_per_group) \
 	__CPROVER_loop_invariant(G.clock >= __CPROVER_loop_entry(G.clock) && G.n_loc2 == 1 && G.loc2_bad == 0 && G.agt_bad_bmap == 0 && G.n_agt_rsv == 0) \
 	__CPROVER_loop_invariant(G.t_mark[BM_NEW] == __CPROVER_loop_entry(G.t_mark[BM_NEW]) && (G.t_agt_first == 0 || G.t_agt_first > __CPROVER_loop_entry(G.clock))) \
-	__CPROVER_loop_invariant(!INRANGE(G.b) || (G.bit[BM_NEW] == 1 && G.agt_took_b == 0)) \
-	__CPROVER_loop_invariant(INRANGE(G.b) || G.bit[BM_NEW] == (S.bit0[BM_NEW] || G.agt_took_b != 0)) \
+	__CPROVER_loop_invariant(!INRANGE(GI.b) || (G.bit[BM_NEW] == 1 && G.agt_took_b == 0)) \
+	__CPROVER_loop_invariant(INRANGE(GI.b) || G.bit[BM_NEW] == (S.bit0[BM_NEW] || G.agt_took_b != 0)) \
 	__CPROVER_loop_invariant(G.bit[BM_OLD] == S.bit0[BM_OLD] && G.bit[BM_META] == S.bit0[BM_META] && G.bit[BM_RESERVE] == S.bit0[BM_RESERVE] && G.bit[BM_MOVE] == S.bit0[BM_MOVE]) \
-	__CPROVER_loop_invariant(G.g < g || (G.loc[0][T_BB] == S.L0[T_BB] && G.loc[0][T_IB] == S.L0[T_IB] && G.loc[0][T_IT] == S.L0[T_IT])) \
-	__CPROVER_loop_invariant(!(G.g < g && INRANGE(G.b)) || !ON_TABLES_NOW(G.b)) \
+	__CPROVER_loop_invariant(GI.g < g || (G.loc[0][T_BB] == S.L0[T_BB] && G.loc[0][T_IB] == S.L0[T_IB] && G.loc[0][T_IT] == S.L0[T_IT])) \
+	__CPROVER_loop_invariant(!(GI.g < g && INRANGE(GI.b)) || !ON_TABLES_NOW(GI.b)) \
 	__CPROVER_loop_invariant(G.loc[1][T_BB] == __CPROVER_loop_entry(G.loc[1][T_BB]) && G.loc[1][T_IB] == __CPROVER_loop_entry(G.loc[1][T_IB]) && G.loc[1][T_IT] == __CPROVER_loop_entry(G.loc[1][T_IT])) \
 	__CPROVER_decreases(fs->group_desc_count - g)
 
 #define VERIF_INV_RESERVE_SS2_BLOCKS \
-	__CPROVER_assigns(blk, i, G, rfs->needed_blocks) \
+	__CPROVER_assigns(blk, i, rfs->needed_blocks, G.clock, G.n_events, G.nch, \
+			  G.bit[BM_RESERVE], G.bit[BM_MOVE], G.nmark[BM_RESERVE], G.nmark[BM_MOVE], G.t_mark[BM_RESERVE], G.t_mark[BM_MOVE]) \
 	__CPROVER_loop_invariant(i <= num && blk == sb + i && sb == S.sb && num == S.n) \
-	__CPROVER_loop_invariant(G.n_agt == __CPROVER_loop_entry(G.n_agt) && G.agt_took_b == __CPROVER_loop_entry(G.agt_took_b) && G.n_loc2 == 1 && G.loc2_bad == 0 && G.agt_bad_bmap == 0) \
-	__CPROVER_loop_invariant(G.bit[BM_NEW] == __CPROVER_loop_entry(G.bit[BM_NEW]) && G.bit[BM_OLD] == S.bit0[BM_OLD] && G.bit[BM_META] == S.bit0[BM_META]) \
-	__CPROVER_loop_invariant(G.loc[0][T_BB] == __CPROVER_loop_entry(G.loc[0][T_BB]) && G.loc[0][T_IB] == __CPROVER_loop_entry(G.loc[0][T_IB]) && G.loc[0][T_IT] == __CPROVER_loop_entry(G.loc[0][T_IT])) \
-	__CPROVER_loop_invariant(!(G.b >= sb && G.b - sb < i) || (G.bit[BM_RESERVE] == 1 && G.bit[BM_MOVE] == MOVE_SPEC)) \
-	__CPROVER_loop_invariant((G.b >= sb && G.b - sb < i) || (G.bit[BM_RESERVE] == S.bit0[BM_RESERVE] && G.bit[BM_MOVE] == S.bit0[BM_MOVE])) \
+	__CPROVER_loop_invariant(!(GI.b >= sb && GI.b - sb < i) || (G.bit[BM_RESERVE] == 1 && G.bit[BM_MOVE] == MOVE_SPEC)) \
+	__CPROVER_loop_invariant((GI.b >= sb && GI.b - sb < i) || (G.bit[BM_RESERVE] == S.bit0[BM_RESERVE] && G.bit[BM_MOVE] == S.bit0[BM_MOVE])) \
 	__CPROVER_loop_invariant(rfs->needed_blocks >= __CPROVER_loop_entry(rfs->needed_blocks) && rfs->needed_blocks - __CPROVER_loop_entry(rfs->needed_blocks) <= i) \
 	__CPROVER_decreases(num - i)
 
@@ -147,7 +146,7 @@ void h_ss2_reserve(void)
 	NG.compat = IN.n_compat; NG.ro_compat = IN.n_ro; NG.bbg0 = IN.n_bbg0; NG.bbg1 = IN.n_bbg1;
 	ASSUME(IN.b < (1ULL << 48) && IN.sb_loc < (1ULL << 48) && IN.old_desc_count < (1u << 31) - 1);
 	ASSUME(g_last_bg == 0 || IN.sb_loc >= 1);	/* a group other than 0 does not start at block 0 */
-	G.b = IN.b; G.g = IN.g;
+	GI.b = IN.b; GI.g = IN.g;
 	for (i = 0; i < BM_NR; i++) { G.bit[i] = IN.bit[i] & 1; S.bit0[i] = G.bit[i]; }
 	for (i = 0; i < T_NR; i++) {
 		ASSUME(IN.loc_new[i] < (1ULL << 48) && IN.loc_old[i] < (1ULL << 48));
@@ -184,9 +183,9 @@ void h_ss2_reserve(void)
 			CHECK(G.bit[BM_MOVE] == MOVE_SPEC, "a block of the run is to be moved exactly when a file uses it (old map, not old metadata)");
 			CHECK(G.t_mark[BM_NEW] != 0 && (G.t_agt_first == 0 || G.t_mark[BM_NEW] < G.t_agt_first), "the run is marked in the block map BEFORE any table is re-allocated");
 			CHECK(G.agt_took_b == 0, "the allocator never hands out a block of the run");
-			CHECK(!ON_TABLES_NOW(IN.b), "no bitmap / inode table of any group lies on the run afterwards");
+			CHECK(IN.g >= IN.new_cnt || !ON_TABLES_NOW(IN.b), "no bitmap / inode table of any group lies on the run afterwards");
 			REACH("in_run");
-			if (TBL_HAS(S.L0[T_IT], S.ipb, IN.b)) REACH("itable_was_on_run");
+			if (IN.g < IN.new_cnt && TBL_HAS(S.L0[T_IT], S.ipb, IN.b)) REACH("itable_was_on_run");
 			if (S.bit0[BM_OLD] && !S.bit0[BM_META]) REACH("file_block_on_run");
 		} else {
 			CHECK(G.bit[BM_RESERVE] == S.bit0[BM_RESERVE] && G.bit[BM_MOVE] == S.bit0[BM_MOVE], "blocks outside the run: reservation and move sets unchanged");
